@@ -293,7 +293,7 @@ def famB_profile(rng, tier, kinds=('000', '010', '001', '011'), fail_rate=0.15, 
                 if kind[0] == '1':
                     if len(p) > 4:
                         continue
-                    akw = {k: v for k, v in kw.items() if k in ('cap_rate', 'wrap_rate')}
+                    akw = {k: v for k, v in kw.items() if k in ('cap_rate', 'wrap_rate', 'boom_rate', 'generic_only')}
                     fr = 0.0 if kind == '111' else fail_rate     # detached tokio tasks of a failing step keep running: exercised by B4, not here
                     progs.append(gen.typed_prog_async(rng, kind, p, handler=h, lets=lets, fail_rate=fr, **akw))
                 else:
@@ -313,12 +313,32 @@ def famB_caps(rng, tier, kinds=('000', '010', '001', '011')):
     return famB_profile(rng, tier, kinds=kinds, cap_rate=0.6, lets_rate=0.6, reps=1)
 
 
+def famB_opts(rng, tier, kinds=('000', '010')):
+    """custom joiner (a logging macro) with eager and lazy branches, sequential kinds, all depth profiles n,d<=3"""
+    progs = []
+    for p in gen.all_profiles(3, 3):
+        for kind in kinds:
+            for mode in ('eager', 'lazy'):
+                if tier == 'quick' and rng.random() < 0.4:
+                    continue
+                h = None
+                if rng.random() < 0.3:
+                    h = rng.choice(['map', 'and_then']) if kind[1] == '1' else 'then'
+                progs.append(gen.typed_prog(rng, kind, p, handler=h, lets=[b for b in range(len(p)) if rng.random() < 0.2], joiner=mode,
+                                            fail_rate=0.15, cap_rate=0.2))
+    return progs
+
+
 def famB_alive(rng, tier, kinds=('001', '011')):
     """thread kinds: every active branch of a multi-branch step waits inside its first callback until ALL of them are there"""
-    return famB_profile(rng, tier, kinds=kinds, fail_rate=0.0, handler_rate=0.2, lets_rate=0.2, nmax=3, dmax=3, reps=1, meet=True)
+    progs = famB_profile(rng, tier, kinds=kinds, fail_rate=0.0, handler_rate=0.2, lets_rate=0.2, nmax=3, dmax=3, reps=1, meet=True)
+    for i, p in enumerate(progs):
+        if i % 4 == 1:
+            p.unnamed = True            # evaluated on an unnamed thread: branch threads must be called join_<i>
+    return progs
 
 
-def famB_panic(rng, tier, kinds=('000', '010', '001', '011')):
+def famB_panic(rng, tier, kinds=('000', '010', '001', '011', '100', '110')):
     progs = famB_profile(rng, tier, kinds=kinds, fail_rate=0.05, handler_rate=0.3, nmax=3, dmax=3, reps=2, boom_rate=0.25)
     return progs
 
@@ -342,6 +362,11 @@ def famB_pairs(rng, tier):
         r.macro = ALIAS[q.kind]
         r.pair = i
         out.append(r)
+        if i % 3 == 0:
+            u = copy.copy(q)            # the spawn macro evaluated on a thread WITHOUT a name (threads are then called join_<i>)
+            u.unnamed = True
+            u.pair = i
+            out.append(u)
     return out
 
 
@@ -349,11 +374,26 @@ def famB_profile_async(rng, tier, kinds=('100', '110', '101', '111'), **kw):
     return famB_profile(rng, tier, kinds=kinds, **kw)
 
 
+def famB_survivor(rng, tier):
+    """async kinds, tuple payloads, only value-generic operators, profiles with a lone long branch: index / projection mistakes in the
+    per-step result routing compile and show as wrong values"""
+    progs = []
+    profiles = [(1, 3), (3, 1), (2, 4, 1), (1, 2, 4), (3, 1, 1), (2, 2, 4), (1, 3, 2)]
+    for p in profiles:
+        for kind in ('110', '111', '100', '101'):
+            for _ in range(1 if tier == 'quick' else 4):
+                h = None
+                if rng.random() < 0.3:
+                    h = rng.choice(['map', 'and_then']) if kind[1] == '1' else 'then'
+                progs.append(gen.typed_prog_async(rng, kind, p, handler=h, lets=[], fail_rate=0.0, cap_rate=0.0, wrap_rate=0.0, generic_only=True))
+    return progs
+
+
 def famB_fail_async(rng, tier):
     return famB_profile(rng, tier, kinds=('110',), fail_rate=0.45, handler_rate=0.4, reps=2)
 
 
-B_FAMILIES = {'profile_async': famB_profile_async, 'fail_async': famB_fail_async, 'profile': famB_profile, 'fail': famB_fail, 'wrap': famB_wrap, 'caps': famB_caps, 'alive': famB_alive,
+B_FAMILIES = {'opts': famB_opts, 'survivor': famB_survivor, 'profile_async': famB_profile_async, 'fail_async': famB_fail_async, 'profile': famB_profile, 'fail': famB_fail, 'wrap': famB_wrap, 'caps': famB_caps, 'alive': famB_alive,
               'panic': famB_panic, 'pairs': famB_pairs}
 
 
@@ -376,8 +416,8 @@ def run_B(fams, rng, tier, name='b', fam_args=None):
             progs.append(p)
     cases = []
     for i, p in enumerate(progs):
-        mode = 'async' if p.kind[0] == '1' else 'sync'
-        cases.append(('%d' % i, getattr(p, 'macro', None) or gen.KIND_NAME[p.kind], p.render(), mode))
+        mode = 'async' if p.kind[0] == '1' else ('sync-unnamed' if getattr(p, 'unnamed', False) else 'sync')
+        cases.append(('%d' % i, getattr(p, 'macro', None) or gen.KIND_NAME[p.kind], p.render(), mode, getattr(p, 'items', [])))
     res, failures = rt.build_and_run(name, cases)
     impl = jv.run_impl([(c[0], progs[int(c[0])].kind, c[2]) for c in cases], tag='Bimpl')
     out, items, idx = [], [], []
@@ -409,8 +449,12 @@ def run_B(fams, rng, tier, name='b', fam_args=None):
         defs = ('Definition %s_i := %s.\nDefinition %s_t := %s.\nDefinition %s_o := %s.\nDefinition %s_g := %s.' % (
             nm, jv.cinput(pr['ok']), nm, p.table.coq(), nm, coq_strlist(d['observed']), nm, jv.coutcome(r['gen'])))
         cfg = jv.cconfig(p.kind)
-        expr = ('(check_rt %s %s_i %s_t %s_o + 1000000000 * (check_mm %s %s_i %s_t + 1000000000 * check_gen %s %s_i %s_g))%%N'
-                % (cfg, nm, nm, nm, cfg, nm, nm, cfg, nm, nm))
+        tn = 'None' if getattr(p, 'unnamed', False) else '(Some "main")'
+        d['_tn'] = tn
+        d['no_spec'] = bool(p.options)          # Spec.v is the semantics of the default options: with options the model (den o gen) is the reference
+        mm = '0' if d['no_spec'] else 'check_mm_as %s %s %s_i %s_t' % (tn, cfg, nm, nm)
+        expr = ('(check_rt_as %s %s %s_i %s_t %s_o + 1000000000 * (%s + 1000000000 * check_gen %s %s_i %s_g))%%N'
+                % (tn, cfg, nm, nm, nm, mm, cfg, nm, nm))
         items.append((defs, expr))
         d['_defs'], d['_nm'] = defs, nm
         idx.append(d)
@@ -424,9 +468,10 @@ def run_B(fams, rng, tier, name='b', fam_args=None):
     sitems = []
     for d in differing:
         cfg = jv.cconfig(d['kind'])
-        sitems.append((d['_defs'], ['spec_run %s %s_i %s_t' % (cfg, d['_nm'], d['_nm']), 'model_run %s %s_i %s_t' % (cfg, d['_nm'], d['_nm'])]))
+        sitems.append((d['_defs'], ['spec_run_as %s %s %s_i %s_t' % (d['_tn'], cfg, d['_nm'], d['_nm']),
+                                    'model_run_as %s %s %s_i %s_t' % (d['_tn'], cfg, d['_nm'], d['_nm'])]))
     for d, v in zip(differing, jv.run_coq_strings(sitems, header=B_HEADER, tag='Bs')):
-        d['exp'] = {'spec': v[0], 'model': v[1]}
+        d['exp'] = {'spec': v[1] if d.get('no_spec') else v[0], 'model': v[1]}
     return out
 
 
@@ -750,9 +795,29 @@ def run_property(pid, P, rng, tier, seed, escalate=False, only_B=False):
         run_P(pid, P, rng, tier, rep, distinct)
     if P.get('history') and not only_B:
         run_history(rng, tier, rep, distinct)
+    if P.get('B1'):
+        import b1
+        r = b1.run(rng, tier, caps=(P['B1'] == 'caps'))
+        rep['B_cases'] += r['cases']
+        rep['b4_distinct'] = rep.get('b4_distinct', 0) + r['cases']
+        rep['families']['B1:documented-chain'] = dict(r['dist'], failures=len(r['failures']), rejected=len(r['rejected']))
+        rep['samples'] += r['samples']
+        for f in r['failures'] + r['rejected']:
+            rep['B_diffs'].append({'family': 'B1', 'macro': f['macro'], 'text': f['dsl'], 'code': -1, 'expected': 'the documented method chain', 'observed': f['why']})
+            rep['witnesses'].append(f)
+    if P.get('nest'):
+        import nest
+        r = nest.run(tier)
+        rep['B_cases'] += r['cases']
+        rep['b4_distinct'] = rep.get('b4_distinct', 0) + r['cases']
+        rep['families']['B:nest'] = dict(r['dist'], failures=len(r['failures']), rejected=len(r['rejected']))
+        rep['samples'] += r['samples']
+        for f in r['failures'] + r['rejected']:
+            rep['B_diffs'].append({'family': 'nest', 'macro': f['macro'], 'text': f['dsl'], 'code': -1, 'expected': 'same value as without nesting', 'observed': f['why']})
+            rep['witnesses'].append(f)
     if P.get('nocost'):
         import nocost
-        r = nocost.run(rng, tier)
+        r = nocost.run(rng, tier, only_borrow=(P['nocost'] == 'borrow'))
         rep['B_cases'] += r['cases']
         rep['b4_distinct'] = rep.get('b4_distinct', 0) + r['cases']
         rep['families']['B:nocost'] = dict(r['dist'], failures=len(r['failures']), rejected=len(r['rejected']))
